@@ -57,7 +57,7 @@ static const char *const s_kind_name[] = {"uint", "negint", "write_float", "writ
 enum {
     F_HEAD_BOUNDARY, F_FLOAT_INT, F_FLOAT_SINGLE, F_FLOAT_DOUBLE, F_NEAR_2P63, F_NEAR_FLTMAX, F_FLOAT_SPECIAL, F_GROWTH,
     F_STR_64K, F_DEPTH8, F_DEPTH32, F_INDEF_CONTAINER, F_INDEF_STRING, F_TAG, F_MAP, F_SKIP_NESTED, F_SKIP_AFTER_PEEK,
-    F_WRONG_POP, F_RESET_REUSE, F_POP_NO_PEEK, F_TIGHT, F_WIDE_COUNT, F_INSTREAM_SKIP, F_DEPTH64, F_1000_SKIPS
+    F_WRONG_POP, F_RESET_REUSE, F_POP_NO_PEEK, F_TIGHT, F_WIDE_COUNT, F_INSTREAM_SKIP, F_DEPTH64, F_1000_SKIPS, F_BIG_ENCODER
 };
 static const char *const s_flag_names[] = {
     "int_head_width_boundary", "write_float_as_integer", "write_float_as_single", "write_float_as_double",
@@ -65,7 +65,7 @@ static const char *const s_flag_names[] = {
     "string_ge_64k", "nesting_ge_8", "nesting_ge_32", "indefinite_container", "indefinite_string", "tag", "map",
     "skip_nested_item", "skip_after_peek", "wrong_type_pop_refused", "encoder_reset_reuse", "pop_without_peek",
     "tight_fit_write_forced_growth", "count_head_ge_24", "in_stream_skip_then_decode", "nesting_eq_64",
-    "one_decoder_skipped_1000_or_more_items"};
+    "one_decoder_skipped_1000_or_more_items", "encoder_buffer_grown_past_64MiB"};
 
 struct el {
     uint8_t kind;
@@ -1177,7 +1177,7 @@ static bool decode_el(struct aws_cbor_decoder *dec, int i, const uint8_t *buf, s
         uint64_t junk = 0;
         struct aws_byte_cursor cj = {0};
         int rc;
-        aws_reset_error();
+        mon_poison_last_error(&mon_case_rng);
         if (want != AWS_CBOR_TYPE_UINT) {
             rc = aws_cbor_decoder_pop_next_unsigned_int_val(dec, &junk);
         } else if (mon_chance(&mon_case_rng, 1, 2)) {
@@ -1199,7 +1199,7 @@ static bool decode_el(struct aws_cbor_decoder *dec, int i, const uint8_t *buf, s
     }
     for (unsigned p = 0; p < peeks; ++p) {
         enum aws_cbor_type t = AWS_CBOR_TYPE_UNKNOWN;
-        aws_reset_error();
+        mon_poison_last_error(&mon_case_rng);
         if (aws_cbor_decoder_peek_type(dec, &t)) {
             mon_violation("C10:decode-failed", "peek_type failed (%s) at element %d (%s), offset %zu; bytes ..%s", ERRNAME(), i,
                           describe(e), e->off, window(buf, total, e->off));
@@ -1215,7 +1215,7 @@ static bool decode_el(struct aws_cbor_decoder *dec, int i, const uint8_t *buf, s
         mon_flag(F_POP_NO_PEEK);
     }
     int rc = AWS_OP_SUCCESS;
-    aws_reset_error();
+    mon_poison_last_error(&mon_case_rng);
     switch (want) {
         case AWS_CBOR_TYPE_UINT:
         case AWS_CBOR_TYPE_NEGINT:
@@ -1427,6 +1427,111 @@ static void dump_case(uint64_t case_idx, const uint8_t *buf, size_t total) {
     fputs("]}\n", s_dump);
 }
 
+/* ------------------------------------------------------------------ encoders that pass 64 MiB (real memory)
+ * strings of tens of MiB written into one encoder: its buffer grows several times above 64 MiB and some reservations
+ * land between 1.5x and 2x the current capacity. Everything is decoded again and compared. */
+static uint8_t bigbyte(size_t i, uint32_t salt) {
+    return (uint8_t)((i * 2654435761u + salt) >> 11);
+}
+
+static void big_case(uint64_t case_idx) {
+    struct mon_rng *r = &mon_case_rng;
+    struct aws_allocator *alloc = aws_default_allocator(); /* 200+ MiB: no junk fill, no red zones */
+    (void)case_idx;
+    uint64_t vb = mon_violations();
+    mon_fp(0xB16);
+    unsigned shape = (unsigned)mon_below(r, 4);
+    size_t sizes[4];
+    int n = 0;
+    switch (shape) {
+        case 0: /* two equal chunks of 64 MiB: the second asks for exactly twice the capacity */
+            sizes[n++] = (size_t)64 << 20;
+            sizes[n++] = (size_t)64 << 20;
+            break;
+        case 1:
+            sizes[n++] = ((size_t)70 << 20) + 123;
+            sizes[n++] = ((size_t)70 << 20) + 123;
+            sizes[n++] = ((size_t)40 << 20) + (size_t)mon_below(r, 4096);
+            break;
+        case 2: /* 1.5x < needed < 2x */
+            sizes[n++] = ((size_t)66 << 20) + (size_t)mon_below(r, 4096);
+            sizes[n++] = ((size_t)45 << 20) + (size_t)mon_below(r, 4096);
+            break;
+        default:
+            sizes[n++] = ((size_t)65 << 20);
+            sizes[n++] = ((size_t)33 << 20) + 1 + (size_t)mon_below(r, (size_t)30 << 20);
+            break;
+    }
+    mon_fp(shape);
+    uint32_t salt = (uint32_t)mon_rand(r);
+    struct aws_cbor_encoder *enc = aws_cbor_encoder_new(alloc);
+    size_t expect_len = 0;
+    aws_cbor_encoder_write_array_start(enc, (size_t)n + 2);
+    expect_len += 1;
+    aws_cbor_encoder_write_uint(enc, 7);
+    expect_len += 1;
+    size_t maxsz = 0;
+    for (int i = 0; i < n; ++i) {
+        maxsz = sizes[i] > maxsz ? sizes[i] : maxsz;
+    }
+    uint8_t *src = malloc(maxsz);
+    bool text[4];
+    for (int i = 0; i < n; ++i) {
+        text[i] = mon_chance(r, 1, 2);
+        for (size_t k = 0; k < sizes[i]; ++k) {
+            src[k] = text[i] ? (uint8_t)('a' + bigbyte(k, salt + (uint32_t)i) % 26) : bigbyte(k, salt + (uint32_t)i);
+        }
+        struct aws_byte_cursor c = aws_byte_cursor_from_array(src, sizes[i]);
+        if (text[i]) {
+            aws_cbor_encoder_write_text(enc, c);
+        } else {
+            aws_cbor_encoder_write_bytes(enc, c);
+        }
+        expect_len += 5 + sizes[i]; /* 4-byte length argument */
+    }
+    free(src);
+    aws_cbor_encoder_write_uint(enc, 1000);
+    expect_len += 3;
+    struct aws_byte_cursor out = aws_cbor_encoder_get_encoded_data(enc);
+    if (out.len != expect_len) {
+        mon_violation("C10:big:encoded-length", "array of %d strings of %zu, %zu ... bytes: encoded data has %zu bytes, expected %zu", n, sizes[0], sizes[1], out.len,
+                      expect_len);
+    } else {
+        struct aws_cbor_decoder *dec = aws_cbor_decoder_new(alloc, out);
+        uint64_t cnt = 0, u = 0;
+        bool ok = aws_cbor_decoder_pop_next_array_start(dec, &cnt) == AWS_OP_SUCCESS && cnt == (uint64_t)n + 2 &&
+                  aws_cbor_decoder_pop_next_unsigned_int_val(dec, &u) == AWS_OP_SUCCESS && u == 7;
+        for (int i = 0; ok && i < n; ++i) {
+            struct aws_byte_cursor c;
+            AWS_ZERO_STRUCT(c);
+            int rc = text[i] ? aws_cbor_decoder_pop_next_text_val(dec, &c) : aws_cbor_decoder_pop_next_bytes_val(dec, &c);
+            if (rc != AWS_OP_SUCCESS || c.len != sizes[i]) {
+                mon_violation("C10:big:string", "string %d of %zu bytes: pop returned %d, length %zu", i, sizes[i], rc, c.len);
+                ok = false;
+                break;
+            }
+            for (size_t k = 0; k < sizes[i]; k += (k < 4096 || k + 4096 > sizes[i]) ? 1 : 509) {
+                uint8_t want = text[i] ? (uint8_t)('a' + bigbyte(k, salt + (uint32_t)i) % 26) : bigbyte(k, salt + (uint32_t)i);
+                if (c.ptr[k] != want) {
+                    mon_violation("C10:big:string", "string %d of %zu bytes: byte %zu differs after the round trip", i, sizes[i], k);
+                    ok = false;
+                    break;
+                }
+            }
+        }
+        if (ok && (aws_cbor_decoder_pop_next_unsigned_int_val(dec, &u) != AWS_OP_SUCCESS || u != 1000 || aws_cbor_decoder_get_remaining_length(dec) != 0)) {
+            mon_violation("C10:big:tail", "the item behind the big strings does not decode as written (value %llu, %zu bytes left)", (unsigned long long)u,
+                          aws_cbor_decoder_get_remaining_length(dec));
+        } else if (!ok && mon_violations() == vb) {
+            mon_violation("C10:big:head", "array head / first item do not decode as written");
+        }
+        aws_cbor_decoder_destroy(dec);
+    }
+    aws_cbor_encoder_destroy(enc);
+    mon_flag(F_BIG_ENCODER);
+    mon_count("encoders_grown_past_64MiB", 1);
+}
+
 static void run_program(uint64_t case_idx) {
     struct mon_rng *r = &mon_case_rng;
     struct aws_allocator *alloc = mon_guard_allocator();
@@ -1545,7 +1650,7 @@ static void run_program(uint64_t case_idx) {
                     goto done;
                 }
             }
-            aws_reset_error();
+            mon_poison_last_error(&mon_case_rng);
             if (aws_cbor_decoder_consume_next_whole_data_item(dec)) {
                 mon_violation("C10:skip-failed", "in-stream consume_next_whole_data_item at element %d (%s) failed: %s", i, describe(e),
                               ERRNAME());
@@ -1615,7 +1720,7 @@ static void run_program(uint64_t case_idx) {
                 ok = false;
             }
         }
-        aws_reset_error();
+        mon_poison_last_error(&mon_case_rng);
         if (ok && aws_cbor_decoder_consume_next_whole_data_item(d2)) {
             mon_violation("C10:skip-failed", "consume_next_whole_data_item at element %d (%s, offset %zu) failed: %s; bytes %s", i,
                           describe(e), e->off, ERRNAME(), mon_hex(buf + e->off, total - e->off, 40));
@@ -1684,6 +1789,11 @@ int main(int argc, char **argv) {
     while (mon_next_case(&c)) {
         mon_case_begin(c);
         uint64_t v0 = mon_violations();
+        if (!sweep && c % 2048 == 2047) {
+            big_case(c);
+            mon_case_end(mon_violations() == v0);
+            continue;
+        }
         if (sweep) {
             gen_sweep(c);
         } else {
